@@ -288,3 +288,79 @@ fn k_float_fast_div_e3() {
 fn k_float_fast_div_e10() {
     float_fast_div::<-10, 16>();
 }
+
+// ---- big-decimal fallback: the two small kernels that are within reach ------------------------------
+
+/// C01/C07 K-decimal-add: appending a digit never writes outside the 768-byte digit buffer,
+/// whatever the current digit count (the count itself keeps growing: "truncated" digits).
+#[kani::proof]
+fn k_decimal_try_add_digit() {
+    let mut d = crate::decimal::Decimal::default();
+    let n: usize = kani::any();
+    kani::assume(n <= crate::decimal::Decimal::MAX_DIGITS + 4);
+    d.num_digits = n;
+    let digit: u8 = kani::any();
+    kani::assume(digit <= 9);
+    d.try_add_digit(digit);
+    assert_eq!(d.num_digits, n + 1);
+    if n < crate::decimal::Decimal::MAX_DIGITS {
+        assert_eq!(d.digits[n], digit);
+    }
+    kani::cover!(n == crate::decimal::Decimal::MAX_DIGITS);
+    kani::cover!(n == crate::decimal::Decimal::MAX_DIGITS - 1);
+}
+
+/// C07 K-decimal-round: for every trimmed decimal of at most 6 significant digits and every
+/// position of the decimal point, `Decimal::round` is round-half-even of the exact value
+/// (a set `truncated` flag means further non-zero digits exist, so a tie is not a tie).
+#[kani::proof]
+#[kani::unwind(9)]
+fn k_decimal_round_6() {
+    let mut d = crate::decimal::Decimal::default();
+    let w: [u8; 6] = kani::any();
+    let nd: usize = kani::any();
+    kani::assume(nd <= 6);
+    let mut i = 0;
+    while i < 6 {
+        kani::assume(w[i] <= 9);
+        if i < nd {
+            d.digits[i] = w[i];
+        }
+        i += 1;
+    }
+    // invariant kept by the parser: no trailing zero digit
+    kani::assume(nd == 0 || w[nd - 1] != 0);
+    d.num_digits = nd;
+    let dp: i32 = kani::any();
+    kani::assume(dp >= -1 && dp <= 7);
+    d.decimal_point = dp;
+    d.truncated = kani::any();
+    let got = d.round();
+    // reference
+    let mut n: u64 = 0;
+    let mut frac_first: u8 = 0;
+    let mut rest_nonzero = d.truncated;
+    let mut k = 0;
+    while k < 8 {
+        let dig = if k < nd { w[k] } else { 0 };
+        if (k as i32) < dp {
+            n = n * 10 + dig as u64;
+        } else if k as i32 == dp {
+            frac_first = dig;
+        } else if dig != 0 {
+            rest_nonzero = true;
+        }
+        k += 1;
+    }
+    let expect = if nd == 0 || dp < 0 {
+        0
+    } else if frac_first > 5 || (frac_first == 5 && (rest_nonzero || n % 2 == 1)) {
+        n + 1
+    } else {
+        n
+    };
+    assert_eq!(got, expect);
+    kani::cover!(frac_first == 5 && !rest_nonzero && n % 2 == 0 && dp > 0 && nd > 0);
+    kani::cover!(frac_first == 5 && !rest_nonzero && n % 2 == 1);
+    kani::cover!(dp == 7);
+}
